@@ -137,7 +137,7 @@ Section TreeFacts.
         apply IHt in E. apply IHel in H as (extra & H1 & H2).
         rewrite E, H2, H1, somes_app, app_assoc. reflexivity.
       + (* p_expr_loop *) intros acc ts e rest H. rewrite p_expr_loop_S in H.
-        destruct ts as [|[x k|g|s| | | | | | | | | | ] r];
+        destruct ts as [|[x k|g|s| | | | | | | | | | |xt] r];
           try (inversion H; subst; exists []; rewrite app_nil_r; split; reflexivity).
         * destruct (p_term row f r) as [[b r']|] eqn:E; [|discriminate].
           apply IHt in E. apply IHel in H as (extra & H1 & H2). cbn [expr_reads] in H1.
@@ -152,7 +152,7 @@ Section TreeFacts.
         apply IHf in E. apply IHtl in H as (extra & H1 & H2).
         rewrite E, H2, H1, somes_app, app_assoc. reflexivity.
       + (* p_term_loop *) intros acc ts e rest H. rewrite p_term_loop_S in H.
-        destruct ts as [|[x k|g|s| | | | | | | | | | ] r];
+        destruct ts as [|[x k|g|s| | | | | | | | | | |xt] r];
           try (inversion H; subst; exists []; rewrite app_nil_r; split; reflexivity).
         * destruct (p_factor row f r) as [[b r']|] eqn:E; [|discriminate].
           apply IHf in E. apply IHtl in H as (extra & H1 & H2). cbn [expr_reads] in H1.
@@ -163,30 +163,30 @@ Section TreeFacts.
           exists (reads b ++ extra)%list. split; [rewrite H1, app_assoc; reflexivity|].
           cbn [tok_reads]. rewrite E, H2, somes_app, app_assoc. reflexivity.
       + (* p_factor *) intros ts e rest H. rewrite p_factor_S in H.
-        destruct ts as [|[x k|g|s| | | | | | | | | | ] r]; try (apply IHp in H; exact H).
+        destruct ts as [|[x k|g|s| | | | | | | | | | |xt] r]; try (apply IHp in H; exact H).
         destruct (p_factor row f r) as [[a r']|] eqn:E; [|discriminate]. inversion H; subst.
         apply IHf in E. cbn [tok_reads expr_reads]. exact E.
       + (* p_power *) intros ts e rest H. rewrite p_power_S in H.
         destruct (p_atom row f ts) as [[a r]|] eqn:E; [|discriminate]. apply IHa in E.
-        destruct r as [|[x k|g|s| | | | | | | | | | ] r]; try (inversion H; subst; exact E).
+        destruct r as [|[x k|g|s| | | | | | | | | | |xt] r]; try (inversion H; subst; exact E).
         destruct (p_factor row f r) as [[b r']|] eqn:E2; [|discriminate]. inversion H; subst.
         apply IHf in E2. cbn [tok_reads] in E. cbn [expr_reads]. rewrite E, E2, somes_app, app_assoc. reflexivity.
       + (* p_atom *) intros ts e rest H. rewrite p_atom_S in H.
-        destruct ts as [|[x k|g|s| | | | | | | | | | ] r]; try discriminate.
+        destruct ts as [|[x k|g|s| | | | | | | | | | |xt] r]; try discriminate.
         * destruct (row x) as [i|] eqn:Er; [|discriminate]. inversion H; subst.
           cbn [tok_reads expr_reads somes map app]. rewrite Er. reflexivity.
-        * destruct r as [|[x k|g'|s| | | | | | | | | | ] r]; try discriminate.
+        * destruct r as [|[x k|g'|s| | | | | | | | | | |xt] r]; try discriminate.
           destruct (fun_kind g) as [k|]; [|discriminate].
           destruct (p_args row f r) as [[args r']|] eqn:E; [|discriminate].
           destruct (apply_fun k args) as [e'|] eqn:Ef; [|discriminate]. inversion H; subst.
           apply IHas in E. cbn [tok_reads]. rewrite E, (apply_fun_reads _ _ _ Ef). reflexivity.
         * destruct (num_ok s); [|discriminate]. inversion H; subst. reflexivity.
         * destruct (p_expr row f r) as [[e' r']|] eqn:E; [|discriminate].
-          destruct r' as [|[x k|g|s| | | | | | | | | | ] r']; try discriminate. inversion H; subst.
+          destruct r' as [|[x k|g|s| | | | | | | | | | |xt] r']; try discriminate. inversion H; subst.
           apply IHe in E. cbn [tok_reads] in *. exact E.
       + (* p_args *) intros ts es rest H. rewrite p_args_S in H.
         destruct (p_expr row f ts) as [[e r]|] eqn:E; [|discriminate]. apply IHe in E.
-        destruct r as [|[x k|g|s| | | | | | | | | | ] r]; try discriminate.
+        destruct r as [|[x k|g|s| | | | | | | | | | |xt] r]; try discriminate.
         * inversion H; subst. cbn [flat_map]. rewrite app_nil_r. cbn [tok_reads] in E. exact E.
         * destruct (p_args row f r) as [[es' r']|] eqn:E2; [|discriminate]. inversion H; subst.
           apply IHas in E2. cbn [flat_map tok_reads] in *. rewrite E, E2, somes_app, app_assoc. reflexivity.
@@ -196,19 +196,179 @@ Section TreeFacts.
     p_expr row fuel ts = Some (e, rest) -> toks_reads ts = (somes (reads e) ++ toks_reads rest)%list.
   Proof. apply (proj1 (tree_ok fuel)). Qed.
 
-  (* a statement of the subset: the left-hand cell, then the reads of the tree = the CRead tokens, in order *)
+End TreeFacts.
+
+(* ---------- conditional expressions ---------- *)
+Section TestFacts.
+  Variable row : string -> option nat.
+  Notation toks_reads := (tok_reads row).
+  Notation arith := (fun ts => p_expr row (tree_fuel ts) ts).
+
+  Lemma p_or_S f ts : p_or row (S f) ts = match p_and row f ts with Some (c, r) => p_or_loop row f c r | None => None end.
+  Proof. reflexivity. Qed.
+  Lemma p_or_loop_S f acc ts : p_or_loop row (S f) acc ts =
+    match ts with
+    | CX XOr :: r => match p_and row f r with Some (b, r') => p_or_loop row f (SOr acc b) r' | None => None end
+    | _ => Some (acc, ts)
+    end.
+  Proof. reflexivity. Qed.
+  Lemma p_and_S f ts : p_and row (S f) ts = match p_not row f ts with Some (c, r) => p_and_loop row f c r | None => None end.
+  Proof. reflexivity. Qed.
+  Lemma p_and_loop_S f acc ts : p_and_loop row (S f) acc ts =
+    match ts with
+    | CX XAnd :: r => match p_not row f r with Some (b, r') => p_and_loop row f (SAnd acc b) r' | None => None end
+    | _ => Some (acc, ts)
+    end.
+  Proof. reflexivity. Qed.
+  Lemma p_not_S f ts : p_not row (S f) ts =
+    match ts with
+    | CX XNot :: r => match p_not row f r with Some (c, r') => Some (SNot c, r') | None => None end
+    | _ => p_cmp row f ts
+    end.
+  Proof. reflexivity. Qed.
+  Lemma p_cmp_S f ts : p_cmp row (S f) ts =
+    match arith ts with
+    | Some (l, CX (XCmp o) :: r) => match arith r with Some (r', rest) => Some (SCmp o l r', rest) | None => None end
+    | _ => match ts with
+           | CLPar :: r => match p_or row f r with Some (c, CRPar :: rest) => Some (c, rest) | _ => None end
+           | _ => None
+           end
+    end.
+  Proof. reflexivity. Qed.
+  Lemma p_test_S f ts : p_test row (S f) ts =
+    match arith ts with
+    | Some (a, CX XIf :: r) =>
+      match p_or row f r with
+      | Some (c, CX XElse :: r2) => match p_test row f r2 with Some (b, rest) => Some (SIf a c b, rest) | None => None end
+      | _ => None
+      end
+    | Some (a, rest) => Some (SVal a, rest)
+    | None => None
+    end.
+  Proof. reflexivity. Qed.
+
+  Definition okC (p : list ctok -> option (scond * list ctok)) : Prop :=
+    forall ts c rest, p ts = Some (c, rest) -> toks_reads ts = (somes (cond_reads c) ++ toks_reads rest)%list.
+  Definition okCL (p : scond -> list ctok -> option (scond * list ctok)) : Prop :=
+    forall acc ts c rest, p acc ts = Some (c, rest) ->
+      exists extra, cond_reads c = (cond_reads acc ++ extra)%list /\ toks_reads ts = (somes extra ++ toks_reads rest)%list.
+
+  (* the alternative of p_cmp that starts with a parenthesis *)
+  Lemma paren_cond_ok f ts c rest : okC (p_or row f) ->
+    match ts with
+    | CLPar :: r => match p_or row f r with Some (c, CRPar :: rest) => Some (c, rest) | _ => None end
+    | _ => None
+    end = Some (c, rest) -> toks_reads ts = (somes (cond_reads c) ++ toks_reads rest)%list.
+  Proof.
+    intros IH H. destruct ts as [|[x k|g|s| | | | | | | | | | |xt] r]; try discriminate.
+    destruct (p_or row f r) as [[c' r1]|] eqn:E; [|discriminate].
+    destruct r1 as [|[x k|g|s| | | | | | | | | | |xt] r1]; try discriminate. inversion H; subst.
+    apply IH in E. cbn [tok_reads] in *. exact E.
+  Qed.
+
+  Lemma cond_ok fuel :
+    okC (p_or row fuel) /\ okCL (p_or_loop row fuel) /\ okC (p_and row fuel) /\ okCL (p_and_loop row fuel) /\
+    okC (p_not row fuel) /\ okC (p_cmp row fuel).
+  Proof.
+    induction fuel as [|f (IHo & IHol & IHa & IHal & IHn & IHc)].
+    - repeat split; red; intros; match goal with H : _ = Some _ |- _ => cbn in H; discriminate H end.
+    - refine (conj _ (conj _ (conj _ (conj _ (conj _ _))))).
+      + intros ts c rest H. rewrite p_or_S in H.
+        destruct (p_and row f ts) as [[a r]|] eqn:E; [|discriminate].
+        apply IHa in E. apply IHol in H as (extra & H1 & H2). rewrite E, H2, H1, somes_app, app_assoc. reflexivity.
+      + intros acc ts c rest H. rewrite p_or_loop_S in H.
+        destruct ts as [|[x k|g|s| | | | | | | | | | |[o| | | | | ]] r];
+          try (inversion H; subst; exists []; rewrite app_nil_r; split; reflexivity).
+        destruct (p_and row f r) as [[b r']|] eqn:E; [|discriminate].
+        apply IHa in E. apply IHol in H as (extra & H1 & H2). cbn [cond_reads] in H1.
+        exists (cond_reads b ++ extra)%list. split; [rewrite H1, app_assoc; reflexivity|].
+        cbn [tok_reads]. rewrite E, H2, somes_app, app_assoc. reflexivity.
+      + intros ts c rest H. rewrite p_and_S in H.
+        destruct (p_not row f ts) as [[a r]|] eqn:E; [|discriminate].
+        apply IHn in E. apply IHal in H as (extra & H1 & H2). rewrite E, H2, H1, somes_app, app_assoc. reflexivity.
+      + intros acc ts c rest H. rewrite p_and_loop_S in H.
+        destruct ts as [|[x k|g|s| | | | | | | | | | |[o| | | | | ]] r];
+          try (inversion H; subst; exists []; rewrite app_nil_r; split; reflexivity).
+        destruct (p_not row f r) as [[b r']|] eqn:E; [|discriminate].
+        apply IHn in E. apply IHal in H as (extra & H1 & H2). cbn [cond_reads] in H1.
+        exists (cond_reads b ++ extra)%list. split; [rewrite H1, app_assoc; reflexivity|].
+        cbn [tok_reads]. rewrite E, H2, somes_app, app_assoc. reflexivity.
+      + intros ts c rest H. rewrite p_not_S in H.
+        destruct ts as [|[x k|g|s| | | | | | | | | | |[o| | | | | ]] r]; try (apply IHc in H; exact H).
+        destruct (p_not row f r) as [[c' r']|] eqn:E; [|discriminate]. inversion H; subst.
+        apply IHn in E. cbn [tok_reads cond_reads]. exact E.
+      + intros ts c rest H. rewrite p_cmp_S in H.
+        destruct (arith ts) as [[l r1]|] eqn:E; [|apply (paren_cond_ok f ts c rest IHo H)].
+        destruct r1 as [|[x k|g|s| | | | | | | | | | |[o| | | | | ]] r1]; try (apply (paren_cond_ok f ts c rest IHo H)).
+        destruct (arith r1) as [[r' rest']|] eqn:E2; [|discriminate]. inversion H; subst.
+        apply tree_reads in E. apply tree_reads in E2. cbn [tok_reads] in E. cbn [cond_reads].
+        rewrite E, E2, somes_app, app_assoc. reflexivity.
+  Qed.
+
+  Lemma test_ok fuel : forall ts st rest,
+    p_test row fuel ts = Some (st, rest) -> toks_reads ts = (somes (test_reads st) ++ toks_reads rest)%list.
+  Proof.
+    induction fuel as [|f IH]; intros ts st rest H; [cbn in H; discriminate|]. rewrite p_test_S in H.
+    destruct (arith ts) as [[a r1]|] eqn:E; [|discriminate]. apply tree_reads in E.
+    assert (Plain : Some (SVal a, r1) = Some (st, rest) -> toks_reads ts = (somes (test_reads st) ++ toks_reads rest)%list).
+    { intros P; inversion P; subst. exact E. }
+    destruct r1 as [|[x k|g|s| | | | | | | | | | |[o| | | | | ]] r1]; try (exact (Plain H)).
+    destruct (p_or row f r1) as [[c r2]|] eqn:Ec; [|discriminate].
+    apply (proj1 (cond_ok f)) in Ec.
+    destruct r2 as [|[x k|g|s| | | | | | | | | | |[o| | | | | ]] r2]; try discriminate.
+    destruct (p_test row f r2) as [[b rest']|] eqn:Eb; [|discriminate]. inversion H; subst.
+    apply IH in Eb. cbn [tok_reads] in *. cbn [test_reads]. rewrite E, Ec, Eb, !somes_app, !app_assoc. reflexivity.
+  Qed.
+
+  (* the nested conditionals read exactly what the condition, the value and the alternative name — as a set
+     (a branch shared by `and` / `or` occurs twice in the nesting, once in the text) *)
+  Lemma mk_if_reads c : forall a b xk,
+    In xk (reads (mk_if c a b)) <-> In xk (cond_reads c) \/ In xk (reads a) \/ In xk (reads b).
+  Proof.
+    induction c as [o l r|c1 IH1 c2 IH2|c1 IH1 c2 IH2|c1 IH1]; intros a b xk; cbn [mk_if cond_reads expr_reads].
+    - rewrite !in_app_iff. tauto.
+    - rewrite IH1, IH2, !in_app_iff. tauto.
+    - rewrite IH1, IH2, !in_app_iff. tauto.
+    - rewrite IH1. tauto.
+  Qed.
+  Lemma denote_reads st : forall xk, In xk (reads (denote st)) <-> In xk (test_reads st).
+  Proof.
+    induction st as [e|a c b IH]; intros xk; cbn [denote test_reads]; [tauto|].
+    rewrite mk_if_reads, IH, !in_app_iff. tauto.
+  Qed.
+  (* without a conditional nothing changes *)
+  Lemma denote_plain e : denote (SVal e) = e /\ test_reads (SVal e) = reads e.
+  Proof. split; reflexivity. Qed.
+
+  Theorem src_of_tokens_reads ts y i k0 st :
+    src_of_tokens row ts = Some (y, i, k0, st) ->
+    row y = Some i /\ toks_reads ts = somes ((i, k0) :: test_reads st).
+  Proof.
+    unfold src_of_tokens. destruct ts as [|[x k|g|s| | | | | | | | | | |xt] r]; try discriminate.
+    destruct r as [|[x' k'|g|s| | | | | | | | | | |xt] r]; try discriminate.
+    destruct (row x) as [j|] eqn:Er; [|discriminate].
+    destruct (p_test row (test_fuel r) r) as [[st' [|? ?]]|] eqn:E; try discriminate.
+    intros H; inversion H; subst. split; [exact Er|].
+    apply test_ok in E. cbn [tok_reads]. rewrite Er, E. cbn [tok_reads somes map]. rewrite app_nil_r. reflexivity.
+  Qed.
+
+  (* a statement of the subset: the left-hand cell, then the series terms of the right-hand side in the order written =
+     the CRead tokens, in order; the expression it denotes reads exactly these terms (as a set) *)
   Theorem stmt_of_tokens_reads ts y i k0 e :
     stmt_of_tokens row ts = Some (y, SAssign i k0 e) ->
-    row y = Some i /\ toks_reads ts = somes ((i, k0) :: reads e).
+    row y = Some i /\
+    exists st, src_of_tokens row ts = Some (y, i, k0, st) /\ e = fold_ints (denote st) /\
+               toks_reads ts = somes ((i, k0) :: test_reads st) /\
+               (forall xk, In xk (reads e) <-> In xk (test_reads st)).
   Proof.
-    unfold stmt_of_tokens. destruct ts as [|[x k|g|s| | | | | | | | | | ] r]; try discriminate.
-    destruct r as [|[x' k'|g|s| | | | | | | | | | ] r]; try discriminate.
-    destruct (row x) as [j|] eqn:Er; [|discriminate].
-    destruct (p_expr row (tree_fuel r) r) as [[e' [|? ?]]|] eqn:E; try discriminate.
-    intros H; inversion H; subst. split; [exact Er|]. rewrite fold_ints_reads.
-    apply tree_reads in E. cbn [tok_reads]. rewrite Er, E. cbn [tok_reads somes map]. rewrite app_nil_r. reflexivity.
+    unfold stmt_of_tokens. destruct (src_of_tokens row ts) as [[[[y' i'] k'] st]|] eqn:E; [|discriminate].
+    intros H; inversion H; subst. destruct (src_of_tokens_reads _ _ _ _ _ E) as [Hr Ht].
+    split; [exact Hr|]. exists st. repeat split; auto.
+    - rewrite fold_ints_reads. apply denote_reads.
+    - rewrite fold_ints_reads. apply denote_reads.
   Qed.
-End TreeFacts.
+End TestFacts.
+
 
 (* ---------- the tokens of a statement and its matches ---------- *)
 Lemma tok_of_match_series m : is_series (mkind m) = true ->
@@ -223,6 +383,7 @@ Proof.
   destruct (mkind m); try discriminate H; cbn [kind_type ttype tindex tname];
     try (destruct (mk_index (mindex m)) as [[z|s]|e]; cbn [ttype]; discriminate).
   all: try (destruct (term_code _); discriminate); try discriminate.
+  all: repeat match goal with |- context [if ?b then _ else _] => destruct b end; discriminate.
 Qed.
 
 Lemma tok_reads_app row a b : tok_reads row (a ++ b) = (tok_reads row a ++ tok_reads row b)%list.
@@ -230,8 +391,12 @@ Proof.
   induction a as [|t a IH]; [reflexivity|].
   destruct t; cbn [app tok_reads]; rewrite IH; reflexivity.
 Qed.
+Lemma op1_reads row c r : tok_reads row (op1 c :: r) = tok_reads row r.
+Proof. unfold op1. repeat match goal with |- context [if ?b then _ else _] => destruct b end; reflexivity. Qed.
+Lemma op2_reads row c r : tok_reads row (op2 c :: r) = tok_reads row r.
+Proof. unfold op2. repeat match goal with |- context [if ?b then _ else _] => destruct b end; reflexivity. Qed.
 Lemma flush_reads row st : tok_reads row (flush st) = [].
-Proof. destruct st; reflexivity. Qed.
+Proof. destruct st; try reflexivity. cbn [flush]. apply op1_reads. Qed.
 Lemma tok_of_char_reads row c r : tok_reads row (tok_of_char c :: r) = tok_reads row r.
 Proof.
   unfold tok_of_char.
@@ -252,20 +417,38 @@ Proof.
     { destruct st; rewrite ?tok_reads_app, ?flush_reads; apply IH. }
     destruct (Ascii.eqb c "*").
     { destruct st; cbn [tok_reads]; rewrite ?tok_reads_app, ?flush_reads; apply IH. }
+    destruct (is_opc c).
+    { destruct st; rewrite ?tok_reads_app, ?flush_reads; cbn [app]; try apply IH.
+      destruct (Ascii.eqb c "="); [rewrite op2_reads; apply IH|].
+      rewrite tok_reads_app, flush_reads. apply IH. }
     destruct (is_space c); rewrite tok_reads_app, flush_reads; cbn [app]; [apply IH|].
     rewrite tok_of_char_reads. apply IH.
   - rewrite tok_reads_app, flush_reads. cbn [app]. rewrite tok_of_match_reads, IH. reflexivity.
 Qed.
 
-(* every series term of an accepted statement of the subset is read at exactly the index written — nothing else is
-   read, nothing is read twice, and the first one is the cell assigned *)
+(* every series term of an accepted statement of the subset is named at exactly the index written — nothing else is
+   read, no term is lost, and the first one is the cell assigned.  st is the right-hand side as written (value, condition,
+   alternative); e, the expression evaluated, reads exactly the terms of st (for a conditional: as a set) *)
 Theorem statement_terms_exact row eq y i k0 e :
   stmt_of_equation row eq = Some (y, SAssign i k0 e) ->
   row y = Some i /\
-  flat_map (match_read row) (matches_of (scan_items eq)) = somes ((i, k0) :: reads e).
+  exists st, e = fold_ints (denote st) /\
+    flat_map (match_read row) (matches_of (scan_items eq)) = somes ((i, k0) :: test_reads st) /\
+    (forall xk, In xk (reads e) <-> In xk (test_reads st)).
 Proof.
-  unfold stmt_of_equation. intros H. apply stmt_of_tokens_reads in H as [H1 H2].
-  split; [exact H1|]. rewrite <- H2. symmetry. apply lex_reads.
+  unfold stmt_of_equation. intros H. apply stmt_of_tokens_reads in H as (H1 & st & _ & He & H2 & H3).
+  split; [exact H1|]. exists st. repeat split; auto; try (apply H3). rewrite <- H2. symmetry. apply lex_reads.
+Qed.
+
+(* … and without a conditional expression the order is exact too: the reads of the tree ARE the matches, in order *)
+Corollary statement_terms_exact_plain row eq y i k0 e e0 :
+  stmt_of_equation row eq = Some (y, SAssign i k0 e) ->
+  src_of_tokens row (lex_items LNone (scan_items eq)) = Some (y, i, k0, SVal e0) ->
+  e = fold_ints e0 /\ flat_map (match_read row) (matches_of (scan_items eq)) = somes ((i, k0) :: reads e).
+Proof.
+  unfold stmt_of_equation, stmt_of_tokens. intros H Hs. rewrite Hs in H. inversion H; subst. cbn [denote].
+  split; [reflexivity|]. destruct (src_of_tokens_reads _ _ _ _ _ _ Hs) as [_ Ht].
+  rewrite fold_ints_reads. cbn [test_reads] in Ht. rewrite <- Ht. symmetry. apply lex_reads.
 Qed.
 
 (* ---------- the program of a script: symbol order ---------- *)
